@@ -293,6 +293,15 @@ pub(super) fn ensure_runtime_expression_compatible<S: GraphSnapshot>(
             }
             ensure_runtime_expression_compatible(&comp.projection, row, snapshot, params)
         }
+        // EXISTS { subquery }: an error raised while the subquery runs (a runtime error in one of
+        // its rows, a resource limit) is an error of the enclosing query. The evaluator can only
+        // answer null for it, which a filter reads as "no match".
+        Expression::Exists(exists) => {
+            if let crate::ast::ExistsExpression::Subquery(query) = exists.as_ref() {
+                crate::query_api::exists_subquery_has_rows(query, row, snapshot, params)?;
+            }
+            Ok(())
+        }
         _ => Ok(()),
     }
 }
